@@ -298,6 +298,55 @@ static void pred_unary(const Case &c) {
     }
     DelMatrix(&cm);
   }
+  // normalised matrix A / |A|_F
+  if (r >= 1 && cc >= 1) {
+    ld s = 0; for (ld x : A.a) s += x * x; s = sqrtl(s);
+    matrix *nm; NewMatrix(&nm, (size_t)r, (size_t)cc); MatrixNorm(m, nm);
+    for (int i = 0; i < r; i++) for (int j = 0; j < cc; j++) {
+      ld ref = s > 0 ? A(i, j) / s : 0;
+      VF_CLOSE(nm->data[i][j], ref, 64 * (r * cc + 2) * EPS * fabsl(ref) + 1e-300L, "MatrixNorm (A / Frobenius norm)");
+    }
+    DelMatrix(&nm);
+  }
+  // descriptive statistics table (no missing cells here): mean, median, harmonic mean, variances, deviations, min, max, zero count
+  if (r >= 2 && cc >= 1) {
+    matrix *ds; initMatrix(&ds); MatrixColDescStat(m, ds);
+    VF_CHECK((int)ds->row == cc && (int)ds->col == 13, "MatrixColDescStat table shape %s for %d columns", dims(ds).c_str(), cc);
+    for (int j = 0; j < cc; j++) {
+      ld sum = 0, sa = 0; std::vector<double> col; bool amb = false, haszero = false; ld hs = 0, hsa = 0; int nz = 0;
+      for (int i = 0; i < r; i++) { double x = (double)A(i, j); sum += x; sa += fabsl(x); col.push_back(x); if (x == 0) { haszero = true; nz++; } else { if (fabs(x) < 1e-5) amb = true; hs += 1 / (ld)x; hsa += fabsl(1 / (ld)x); } }
+      ld mu = sum / r, ss = 0, sad = 0; for (int i = 0; i < r; i++) { ld dd = A(i, j) - mu; ss += dd * dd; sad += fabsl(dd); }
+      VF_CLOSE(ds->data[j][0], mu, tol_T1(r, sa / r), "MatrixColDescStat mean");
+      std::sort(col.begin(), col.end()); ld med = r % 2 ? (ld)col[r / 2] : ((ld)col[r / 2] + (ld)col[r / 2 - 1]) / 2;
+      VF_CLOSE(ds->data[j][1], med, 4 * EPS * fabsl(med) + 1e-300L, "MatrixColDescStat median");
+      ld tolss = 64 * (r + 2) * EPS * (ss + 2 * sad * amax * r) + 1e-300L;
+      VF_CLOSE(ds->data[j][3], ss / r, tolss / r, "MatrixColDescStat population variance");
+      VF_CLOSE(ds->data[j][4], ss / (r - 1), tolss / (r - 1), "MatrixColDescStat sample variance");
+      { ld ref = sqrtl(ss / r), t = tolss / r; VF_CLOSE(ds->data[j][5], ref, ref > 0 ? t / ref + 8 * EPS * ref : sqrtl(t), "MatrixColDescStat population sd"); }
+      { ld ref = sqrtl(ss / (r - 1)), t = tolss / (r - 1); VF_CLOSE(ds->data[j][6], ref, ref > 0 ? t / ref + 8 * EPS * ref : sqrtl(t), "MatrixColDescStat sample sd"); }
+      VF_CHECK(ds->data[j][9] == col.front() && ds->data[j][10] == col.back(), "MatrixColDescStat min/max of column %d: (%g, %g), expected (%g, %g)", j, ds->data[j][9], ds->data[j][10], col.front(), col.back());
+      if (!amb) VF_CHECK(ds->data[j][11] == (double)nz, "MatrixColDescStat zero count of column %d: %g, expected %d", j, ds->data[j][11], nz);
+      VF_CHECK(ds->data[j][12] == 0, "MatrixColDescStat missing count %g in a column without missing cells", ds->data[j][12]);
+      if (!haszero && hs != 0) { ld ref = r / hs, t = r * 64 * (r + 2) * EPS * hsa / (hs * hs); if (t < fabsl(ref)) VF_CLOSE(ds->data[j][2], ref, t + 8 * EPS * fabsl(ref), "MatrixColDescStat harmonic mean"); }
+    }
+    DelMatrix(&ds);
+  }
+  // column centring
+  if (r >= 2 && cc >= 1) {
+    matrix *mc; NewMatrix(&mc, (size_t)r, (size_t)cc); MeanCenteredMatrix(m, mc);
+    for (int j = 0; j < cc; j++) { ld sum = 0; for (int i = 0; i < r; i++) sum += A(i, j); ld mu = sum / r;
+      for (int i = 0; i < r; i++) VF_CLOSE(mc->data[i][j], A(i, j) - mu, 64 * (r + 2) * EPS * amax + 1e-300L, "MeanCenteredMatrix"); }
+    DelMatrix(&mc);
+  }
+  // block-wise transpose of a tensor
+  if (r >= 1 && cc >= 1) {
+    tensor *t1, *t2; NewTensor(&t1, 2); NewTensor(&t2, 2);
+    for (size_t k = 0; k < 2; k++) { NewTensorMatrix(t1, k, (size_t)r, (size_t)cc); NewTensorMatrix(t2, k, (size_t)cc, (size_t)r); for (int i = 0; i < r; i++) for (int j = 0; j < cc; j++) t1->m[k]->data[i][j] = (double)A(i, j) * (double)(k + 1); }
+    TensorTranspose(t1, t2);
+    for (size_t k = 0; k < 2; k++) for (int i = 0; i < r; i++) for (int j = 0; j < cc; j++)
+      VF_CHECK(t2->m[k]->data[j][i] == t1->m[k]->data[i][j], "TensorTranspose block %zu (%d,%d): %g != %g", k, j, i, t2->m[k]->data[j][i], t1->m[k]->data[i][j]);
+    DelTensor(&t1); DelTensor(&t2);
+  }
   DelMatrix(&m);
 }
 
